@@ -16,6 +16,8 @@ import (
 // code passes in (the production encoding) and queues the bytes; MsgRecv unmarshals the
 // next queued frame, and reports context.Canceled (a clean end of stream) when there is none.
 type VerifPipe struct {
+	Values  []*Envelope // if set: handed to the receiver as they are (an Envelope VALUE no byte string decodes to, e.g. with nil table entries), before Frames
+	vpos    int
 	Frames  [][]byte
 	pos     int
 	SendErr error
@@ -35,6 +37,13 @@ func (p *VerifPipe) MsgSend(m drpc.Message, enc drpc.Encoding) error {
 	return nil
 }
 func (p *VerifPipe) MsgRecv(m drpc.Message, enc drpc.Encoding) error {
+	if p.vpos < len(p.Values) {
+		v := p.Values[p.vpos]
+		p.vpos++
+		e := m.(*Envelope)
+		e.TypeNames, e.Targets, e.Senders, e.Messages = v.TypeNames, v.Targets, v.Senders, v.Messages
+		return nil
+	}
 	if p.pos >= len(p.Frames) {
 		return context.Canceled
 	}
@@ -63,6 +72,20 @@ func VerifWriter(e *actor.Engine, addr string, pipe *VerifPipe) actor.Processer 
 	w.stream = &drpcRemote_ReceiveClient{pipe}
 	w.rawconn = verifConn{}
 	return w
+}
+
+// verifWriterProc is the real streamWriter minus the dial: Start only opens its inbox.
+type verifWriterProc struct{ *streamWriter }
+
+func (p verifWriterProc) Start() { p.streamWriter.inbox.Start(p.streamWriter) }
+
+// VerifInstallWriter registers the real streamWriter of engine e for address addr in e's
+// registry, under the PID the router would give it ("stream/<addr>"), connected to pipe
+// instead of a dialled connection. Whatever is sent to that PID goes through the writer's
+// own inbox into the real streamWriter.Invoke.
+func VerifInstallWriter(e *actor.Engine, addr string, pipe *VerifPipe) *actor.PID {
+	w := VerifWriter(e, addr, pipe).(*streamWriter)
+	return e.SpawnProc(verifWriterProc{w})
 }
 
 // VerifDeliver wraps an outbound message the way Remote.Send does.
